@@ -790,6 +790,10 @@ func (f *ftrans) isRuntimeExpr(e ast.Expr) bool {
 		if n, ok := t.(*types.Named); ok && n.Obj().Pkg() != nil && n.Obj().Pkg().Path() == "runtime" {
 			return true
 		}
+		// d.Seconds() and the like on a time.Duration value: pure, cannot panic
+		if n, ok := t.(*types.Named); ok && n.Obj().Pkg() != nil && n.Obj().Pkg().Path() == "time" && n.Obj().Name() == "Duration" && len(call.Args) == 0 {
+			return true
+		}
 	}
 	return false
 }
